@@ -501,6 +501,13 @@ impl DbInner {
 	where
 		I: IntoIterator<Item = (ColId, Operation<Vec<u8>, Vec<u8>>)>,
 	{
+		// Reject an invalid transaction before tree nodes are claimed or the tree registry is
+		// touched: a failed commit must leave no trace.
+		let tx: Vec<_> = tx.into_iter().collect();
+		for (col, change) in &tx {
+			self.validate_change(*col, change)?;
+		}
+
 		let mut commit: CommitChangeSet = Default::default();
 		for (col, change) in tx.into_iter() {
 			if self.options.columns[col as usize].btree_index {
@@ -632,6 +639,41 @@ impl DbInner {
 		}
 
 		self.commit_raw(commit)
+	}
+
+	/// Check that `change` can be committed to `col`, without side effects.
+	fn validate_change(&self, col: ColId, change: &Operation<Vec<u8>, Vec<u8>>) -> Result<()> {
+		let options = &self.options.columns[col as usize];
+		if options.btree_index || !options.multitree {
+			return match change {
+				Operation::Set(..) | Operation::Dereference(..) => Ok(()),
+				Operation::Reference(..) if options.ref_counted => Ok(()),
+				Operation::Reference(..) =>
+					Err(Error::InvalidInput(format!("No Rc for column {}", col))),
+				Operation::InsertTree(..) |
+				Operation::ReferenceTree(..) |
+				Operation::DereferenceTree(..) =>
+					Err(Error::InvalidInput(format!("Invalid operation for column {}", col))),
+			}
+		}
+		match change {
+			Operation::Set(..) | Operation::Reference(..) | Operation::Dereference(..) => Err(
+				Error::InvalidConfiguration("Invalid operation for multitree column".to_string()),
+			),
+			Operation::InsertTree(_, node) => crate::column::validate_tree_node(node),
+			Operation::ReferenceTree(..) => Ok(()),
+			Operation::DereferenceTree(key) => {
+				if options.append_only {
+					return Err(Error::InvalidConfiguration(
+						"Attempting to dereference a tree from an append_only column.".to_string(),
+					))
+				}
+				if self.get(col, key, false)?.is_none() {
+					return Err(Error::InvalidConfiguration("No entry for tree root".to_string()))
+				}
+				Ok(())
+			},
+		}
 	}
 
 	fn commit_raw(&self, commit: CommitChangeSet) -> Result<()> {
